@@ -1,4 +1,4 @@
 INIT CheckInit
 NEXT CheckNext
 CHECK_DEADLOCK FALSE
-INVARIANTS CheckInv Complete ArithInv
+INVARIANTS CheckInv Complete ArithInv ArithDrift
